@@ -11,3 +11,4 @@ func vEventCount(name string) int { return 0 }
 func vConfigurator() module.Configurator                   { return nil }
 func vMigrationRegistered(mod string, from uint64) bool   { return false }
 func vMigrationCount(mod string) int                       { return 0 }
+func vAnteFeeOK() bool                                      { return true }
